@@ -84,7 +84,9 @@ Digit(d) == CASE d = 0 -> "0" [] d = 1 -> "1" [] d = 2 -> "2" [] d = 3 -> "3" []
               [] d = 5 -> "5" [] d = 6 -> "6" [] d = 7 -> "7" [] d = 8 -> "8" [] d = 9 -> "9"
 RECURSIVE NatChars(_)
 NatChars(n) == IF n < 10 THEN <<Digit(n)>> ELSE Append(NatChars(n \div 10), Digit(n % 10))
-IntChars(n) == IF n < 0 THEN <<"-">> \o NatChars(-n) ELSE NatChars(n)
+\* (2^31 - 1 stands for the largest int of the implementation, which prints as itself)
+IntChars(n) == IF n = 2147483647 THEN <<"9","2","2","3","3","7","2","0","3","6","8","5","4","7","7","5","8","0","7">>
+               ELSE IF n < 0 THEN <<"-">> \o NatChars(-n) ELSE NatChars(n)
 RECURSIVE FracChars(_, _)
 FracChars(fr, den) == IF fr = 0 THEN <<>> ELSE <<Digit((fr * 10) \div den)>> \o FracChars((fr * 10) % den, den)
 \* plain decimal form (how a float literal is spelled in a template)
